@@ -14,13 +14,16 @@
   * `scrollInv_applyTpLine` — one accepted line keeps it, PROVIDED the line does not go back in time (`hord`) and the mode is
     taiko / mania. Exact arithmetic (`EpsLaws`: the redundancy tests are equalities; `GroupLaws`: the grouping test is
     equality of times) and the two closed clamp facts `ScrollClampLaws` (`clamp(1, 0.1, 10) = 1`,
-    `clamp(clamp(x, 0.01, 10), 0.1, 10) = clamp(x, 0.1, 10)`: `0.01 ≤ 0.1 ≤ 10` in a linear order; instance `scrollClampLaws_zc`).
+    `clamp(clamp(x, 0.01, 10), 0.1, 10) = clamp(x, 0.1, 10)`: `0.01 ≤ 0.1 ≤ 10` in a linear order; instances `scrollClampLaws_zc`, and
+    every exact scalar: `scrollClampLaws_of_exact` in Props/C02FinalScrollExact.lean).
   * **The invariant is FALSE for out-of-order lines** — `unordered_scroll_counterexample` (kernel-evaluated on the toy scalar,
     from the two TEXT lines `10,-100,4,1,0,100,0,1` and `5,-50,4,1,0,100,0,0` in mania): the kiai line at 10 stores an effect
     point only (its velocity 1 repeats the default), the line at 5 then inserts a difficulty point (velocity 2, in effect
     from 5 on, also at 10) and an effect point (scroll 2, in effect on [5, 10) only): at time 10 the slider velocity is 2 and
-    the scroll speed 1. So `decoded_scrollDrivesSv_statement` without the chronological hypothesis is refuted
-    (`scroll_timeline_unordered_false`), and a slider at 10 in such a file has its velocity changed by the round trip.
+    the scroll speed 1. So the timeline statement without the chronological hypothesis is refuted
+    (`scroll_timeline_unordered_false`); by `scroll_hypothesis_exact` a slider starting at 10 in such a map is exactly where
+    the re-decoded `difficulty_point_at` answers differently (2 before, clamp(1) = 1 after) — the reason the property's
+    domain asks for chronological timing lines.
   * the hypotheses on the FILE are stated on a ghost log: `tpLogDecoder` is `timingPointsDecoder` paired with the list of the
     accepted `[TimingPoints]` lines, each with the mode in force when it was applied (`tpLog_fst`: the first component is the
     real decoder, C07). `LogGood md log`: every entry was applied in mode `md` (finding F15: a `Mode:` record may follow
